@@ -77,6 +77,9 @@ def main(argv):
             shutil.rmtree(wt, ignore_errors=True)
     # merge with earlier results (one entry per seeded change and check)
     store = os.path.join(SEEDED, 'results.json')
+    import fcntl
+    lock = open(os.path.join(SEEDED, '.results.lock'), 'w')
+    fcntl.flock(lock, fcntl.LOCK_EX)        # several instances may run side by side
     allrows = {}
     if os.path.exists(store):
         allrows = json.load(open(store))
